@@ -951,3 +951,10 @@ Proof.
   rewrite andb_false_r.
   destruct (refl_focus S D false rest _ true op ([], [])). reflexivity.
 Qed.
+
+Theorem truncate_out_of_bounds : forall D tid fd lro vs n,
+  N.of_nat (length vs) < n -> refl_list_edit D tid fd lro (LTruncate n) vs = (None, OPanic).
+Proof.
+  intros D tid fd lro vs n H. unfold refl_list_edit. destruct lro; auto.
+  destruct (N.leb_spec n (N.of_nat (length vs))); auto. lia.
+Qed.
